@@ -227,9 +227,26 @@ def main():
     lean = lean_obligations(pid, tier)
 
     if replay:
+        # 1. re-run the recorded case: generic oracles + model agreement
         rc, out = sh([bins[profiles[0]], "replay", "--model", RSMODEL, "--case", replay])
         print(out)
-        return 0
+        rj = {}
+        try:
+            rj = json.load(open(replay))
+        except Exception:
+            pass
+        if rc == 1:
+            print(f"VIOLATION property={pid} replay={replay}")
+            return 1
+        # 2. property-specific oracles are not part of the recorded lines: re-run the check with the
+        #    recorded seed and tier
+        if rj.get("seed") is not None:
+            os.environ["VERIF_SEED"] = str(rj["seed"])
+            seed = int(rj["seed"])
+            tier = rj.get("tier", tier)
+            print(f"re-running ./check.py {pid} --tier {tier} with VERIF_SEED={seed}")
+        else:
+            return 0
 
     # ---- 3. correspondence + direct oracle
     reports = []
@@ -269,6 +286,7 @@ def main():
             continue
         if n_replay < 5:
             path = write_replay(pid, n_replay, {"property": pid, "kind": "failing-input", "what": f["what"],
+                                                "seed": seed, "tier": tier,
                                                 "profile": f.get("profile"), "case": f["case"],
                                                 "line_no": f.get("line_no"),
                                                 "replay_cmd": f"./check.py {pid} --replay <this file>"})
@@ -283,7 +301,7 @@ def main():
         # an obligation or the correspondence no longer checks, and the direct oracle found no failing
         # input anywhere in this run (including the neighbourhood search the harness performs)
         path = write_replay(pid, "unchecked", {
-            "property": pid, "kind": "no-failing-input-found",
+            "property": pid, "kind": "no-failing-input-found", "seed": seed, "tier": tier,
             "no_longer_checks": broken,
             "divergent_cases": [m["case"] for m in model[:5]],
             "searched": "direct oracle on every generated case of this tier, on the shrunk variants and on the "
